@@ -137,12 +137,15 @@ Definition handle_swap_partition (e : env) (s : seg) (g : graph) : res graph :=
               match get_child fc ["bracketed"] with
               | Some b =>
                   let es := get_children b ["expression"] in
-                  do e0 <- nth_res es 0;
-                  do t0 <- mk_table e (escape (raw e0)) None None;
-                  let g1 := add_read g t0 in
-                  do e3 <- nth_res es 3;
-                  do t3 <- mk_table e (escape (raw e3)) None None;
-                  Ok (add_write g1 t3)
+                  (* after fix F7: fewer than four arguments -> nothing to report *)
+                  match nth_error es 0, nth_error es 3 with
+                  | Some e0, Some e3 =>
+                      do t0 <- mk_table e (escape (raw e0)) None None;
+                      let g1 := add_read g t0 in
+                      do t3 <- mk_table e (escape (raw e3)) None None;
+                      Ok (add_write g1 t3)
+                  | _, _ => Ok g
+                  end
               | None => Ok g
               end
             | None => Ok g
@@ -373,10 +376,14 @@ Fixpoint extract (fuel : nat) (e : env) (k : xkind) (stmt : seg) (ctx : context)
           let '(g, _, cols, subs) := r in
           do g1 <- fold_left (fun acc x =>
                      do g' <- acc;
-                     do w <- nth_res (sq_write g') 0;
-                     let tgt := add_parent (xc x) w in
-                     do srcs <- to_source_columns e x (get_alias_mapping g' (sq_read g'));
-                     fold_left (fun acc2 sc => do g'' <- acc2; add_column_lineage g'' sc tgt) srcs (Ok g'))
+                     (* after the fix: no identified target table, no column lineage *)
+                     match sq_write g' with
+                     | [] => Ok g'
+                     | w :: _ =>
+                         let tgt := add_parent (xc x) w in
+                         do srcs <- to_source_columns e x (get_alias_mapping g' (sq_read g'));
+                         fold_left (fun acc2 sc => do g'' <- acc2; add_column_lineage g'' sc tgt) srcs (Ok g')
+                     end)
                    cols (Ok g);
           extract_subquery subs g1
       end
@@ -446,7 +453,12 @@ Definition extract_merge (fuel : nat) (e : env) (stmt : seg) : res graph :=
                                          | Some cro =>
                                              do q <- extract_column_qualifier cro;
                                              match q with
-                                             | Some c => do tc <- nth_res ins j; add_column_lineage g3 (plain_col (fst c) direct) tc
+                                             | Some c =>
+                                                 (* after fix F6: a value beyond the insert column list is skipped *)
+                                                 match nth_error ins j with
+                                                 | Some tc => add_column_lineage g3 (plain_col (fst c) direct) tc
+                                                 | None => Ok g3
+                                                 end
                                              | None => Ok g3
                                              end
                                          | None => Ok g3
